@@ -403,6 +403,54 @@ def c02_each2_ragged():
 
 
 
+def c11_r_negative():
+    d = tempfile.mkdtemp(prefix="vtp_")
+    try:
+        k = _K(); f = os.path.join(d, "t.txt")
+        k('.tc(T::.oc("%s"))' % f); k('.w(-5)'); k('.w([1 -2])'); k('.cc(T)')
+        k('.fc(F::.ic("%s"))' % f)
+        a = k('.r()'); b = k('.r()'); k('.cc(F)')
+        return _canon(a) != ("i", -5) or _canon(b) != _i(1, -2)
+    except Exception:
+        return True
+    finally:
+        shutil.rmtree(d, ignore_errors=True)
+
+
+def c16_directory_key():
+    from klongpy.core import KLONG_UNDEFINED
+    d = tempfile.mkdtemp(prefix="vtp_")
+    try:
+        k = _K(); k('.py("klongpy.db")'); k('kvs::.kvs("%s")' % d); k('kvs,"a/b",,1')
+        return k('kvs?"a"') is not KLONG_UNDEFINED or _canon(k('kvs?"a/b"')) != ("i", 1)
+    except Exception:
+        return True
+    finally:
+        shutil.rmtree(d, ignore_errors=True)
+
+
+def c14_cleanup_with_pending_calls():
+    # the listener is stopped without an error (cleanup() while calls are outstanding): every pending call must be failed
+    import asyncio
+    import klongpy.sys_fn_ipc as IPC
+    loop = asyncio.new_event_loop()
+    try:
+        class _P:
+            def is_open(self): return True
+            def __str__(self): return "p"
+        nc = IPC.NetworkClient(loop, None, None, _P())
+        fut = loop.create_future()
+        nc.pending_responses[1] = fut
+        try:
+            nc._cleanup_pending_responses(None)
+        except Exception:
+            return True
+        return not (fut.done() and fut.exception() is not None and not nc.pending_responses)
+    finally:
+        loop.close()
+
+
+
 PROBES = {
     "C01/split-near-equal": c01_split, "C01/rotate-matrix-flattens": c01_rotate, "C01/reverse-atom-raises": c01_reverse_atom,
     "C01/format-list-recursion": c01_format_list, "C01/first-of-string-is-string": c01_first_string, "C01/max-nested": c01_max_nested,
@@ -426,6 +474,8 @@ PROBES = {
     "C09/arity-under-monadic-operator": c09_monadic_arity,
     "C11/rs-dictionary-unevaluated": c11_rs_dict, "C11/bracket-string-in-list": c11_bracket_string,
     "C11/two-character-classes": c11_char_class,
+    "C11/r-negative-number": c11_r_negative, "C16/directory-prefix-key-raises": c16_directory_key,
+    "C14/cleanup-with-pending-calls": c14_cleanup_with_pending_calls,
     "C12/empty-comment-marker-hangs": c12_comment_hang,
     "C13/undefined-identity-through-pickle": c13_undefined_identity,
     "C17/fsync-before-flush": c17_fsync_before_data,
